@@ -10,6 +10,13 @@
 (* one action per API operation:                                           *)
 (*   AddReader    the next reader of Temps is registered (readers beyond   *)
 (*                InitReaders arrive in the middle of the history)         *)
+(*   ShutdownReader(q)  reader q alone is shut down (MetricReader::Shutdown *)
+(*                on that reader; the provider and the other readers keep  *)
+(*                running).  It stays in the provider's collector list;    *)
+(*                what it is handed afterwards is nobody's business, but   *)
+(*                every OTHER reader keeps every clause for ALL            *)
+(*                measurements - also those recorded before the shutdown   *)
+(*                and first swapped out by the reader that left            *)
 (*   Create       a(nother) handle for the one instrument                  *)
 (*   Add(h,s,v)   Record: for every view stream, file v under              *)
 (*                Canon(s, filter) in the storage's interval table         *)
@@ -53,6 +60,7 @@ CONSTANTS Temps,       \* sequence of reader temporalities, e.g. <<"delta", "cum
           AttrSeqs,    \* the attribute sequences callers use
           Amounts,     \* the amounts callers add
           MaxAdd, MaxCollect,
+          MaxShutdown, \* how many readers may be shut down individually in the middle of the history
           AllOrders,   \* BOOLEAN: explore every iteration order of the (unordered) tables
           Dev, Hist
 
@@ -81,6 +89,7 @@ OrdBy(S, pri) == SelectSeq(pri, LAMBDA x : x \in S)
 
 VARIABLES nh,      \* handles created
           nr,      \* readers registered so far (1..nr collect)
+          down,    \* readers shut down individually (still registered)
           store,   \* [Stores -> [delta, dlim, seen, unrep, last]]
           nadd, ncol,
           \* ghosts: what the property talks about
@@ -93,7 +102,7 @@ VARIABLES nh,      \* handles created
           devUsed, flags,
           hist
 
-bvars == <<nh, nr, store, nadd, ncol, rec, win, gtot, lastEnd, colsOf, bad, devUsed, flags>>
+bvars == <<nh, nr, down, store, nadd, ncol, rec, win, gtot, lastEnd, colsOf, bad, devUsed, flags>>
 vars  == <<bvars, hist>>
 
 Bump(m, a, v) == IF a \in DOMAIN m THEN [m EXCEPT ![a] = @ + v] ELSE m @@ (a :> v)
@@ -130,11 +139,12 @@ SId(h, vw) == IF D2 \in Dev THEN <<h, vw>> ELSE <<1, vw>>
 RegViews == IF D3 \in Dev THEN {NV} ELSE Views
 RegStore(vw) == <<(IF D2 \in Dev THEN nh ELSE 1), vw>>
 
-NewStore == [delta |-> Empty, dlim |-> Limit, seen |-> {},
+\* `by`: generation runs only - the reader whose Collect swapped out the newest stashed interval table
+NewStore == [delta |-> Empty, dlim |-> Limit, seen |-> {}, by |-> 0,
              unrep |-> [r \in Readers |-> <<>>],
              last  |-> [r \in Readers |-> [has |-> FALSE, m |-> Empty, ts |-> 0]]]
 
-Init == /\ nh = 0 /\ nr = InitReaders /\ nadd = 0 /\ ncol = 0
+Init == /\ nh = 0 /\ nr = InitReaders /\ down = {} /\ nadd = 0 /\ ncol = 0
         /\ store = [s \in Stores |-> NewStore]
         /\ rec = [vw \in Views |-> Empty]
         /\ win = [r \in Readers |-> [vw \in Views |-> Empty]]
@@ -152,15 +162,28 @@ AddReader ==
   /\ nr < Len(Temps)
   /\ nr' = nr + 1
   /\ flags' = Fl({"grown"})
-  /\ UNCHANGED <<nh, store, nadd, ncol, rec, win, gtot, lastEnd, colsOf, bad, devUsed>>
+  /\ UNCHANGED <<nh, down, store, nadd, ncol, rec, win, gtot, lastEnd, colsOf, bad, devUsed>>
   /\ Log([e |-> "AddReader", t |-> Temps[nr + 1]])
+
+\* MetricReader::Shutdown on ONE reader.  Nothing in the pipeline's design reacts to it (the collector stays
+\* in MeterContext's list, so the storages keep stashing for it); the property simply stops talking about q.
+ShutdownReader(q) ==
+  /\ q <= nr /\ q \notin down
+  /\ Cardinality(down) < MaxShutdown
+  /\ down' = down \cup {q}
+  \* q itself swapped out the newest interval table and it is still parked for a reader that stays
+  /\ flags' = Fl(IF \E r \in (1..nr) \ (down \cup {q}), vw \in (IF nh = 0 THEN {} ELSE RegViews) :
+                       Len(store[RegStore(vw)].unrep[r]) >= 1 /\ store[RegStore(vw)].by = q
+                    THEN {"parked_at_shutdown"} ELSE {})
+  /\ UNCHANGED <<nh, nr, store, nadd, ncol, rec, win, gtot, lastEnd, colsOf, bad, devUsed>>
+  /\ Log([e |-> "ShutdownReader", r |-> q])
 
 Create ==
   /\ nh < MaxHandles
   /\ nh' = nh + 1
   /\ devUsed' = devUsed \cup (IF D2 \in Dev /\ nh >= 1 THEN {D2} ELSE {})
   /\ flags' = Fl(IF nh >= 1 THEN {"dup"} ELSE {})
-  /\ UNCHANGED <<nr, store, nadd, ncol, rec, win, gtot, lastEnd, colsOf, bad>>
+  /\ UNCHANGED <<nr, down, store, nadd, ncol, rec, win, gtot, lastEnd, colsOf, bad>>
   /\ Log([e |-> "Create", h |-> nh + 1])
 
 Add(h, s, v) ==
@@ -182,7 +205,7 @@ Add(h, s, v) ==
                        \cup (IF \E vw \in Views : Cardinality(A[vw]) < Cardinality({s[i][1] : i \in 1..Len(s)})
                                THEN {"filtered"} ELSE {}))
      /\ Log([e |-> "Add", h |-> h, attrs |-> s, v |-> v, hid |-> [vw \in Views |-> HId(A[vw])]])
-  /\ UNCHANGED <<nh, nr, ncol, gtot, lastEnd, colsOf, bad, devUsed>>
+  /\ UNCHANGED <<nh, nr, down, ncol, gtot, lastEnd, colsOf, bad, devUsed>>
 
 (* ---- SyncMetricStorage::Collect + TemporalMetricStorage::buildMetrics ---- *)
 TblLimit == IF D4 \in Dev THEN DefLimit ELSE Limit
@@ -203,8 +226,9 @@ CollectStore(st, r, t, pri) ==
          LET un1   == IF DOMAIN d # {} THEN [q \in Readers |-> IF q <= nr THEN Append(st.unrep[q], d) ELSE st.unrep[q]]
                                        ELSE st.unrep
              seen1 == IF DOMAIN d # {} THEN st.seen \cup (1..nr) ELSE st.seen
+             by1   == IF Hist /\ DOMAIN d # {} THEN r ELSE st.by
          IN IF r \notin seen1
-              THEN [st |-> [st1 EXCEPT !.unrep = un1, !.seen = seen1], emit |-> FALSE, pts |-> Empty,
+              THEN [st |-> [st1 EXCEPT !.unrep = un1, !.seen = seen1, !.by = by1], emit |-> FALSE, pts |-> Empty,
                     start |-> 0, idealStart |-> 0, fl |-> {"unseen"}, idealPts |-> Empty]
               ELSE
                 LET lr == st.last[r]
@@ -214,7 +238,7 @@ CollectStore(st, r, t, pri) ==
                     start  == IF lr.has /\ Temps[r] = "delta" THEN lr.ts ELSE 0
                     \* D1 tree, reader moved from the fast path to this one: lr.ts is where it should start
                     ideal  == IF Temps[r] = "delta" THEN lr.ts ELSE 0
-                IN [st |-> [st1 EXCEPT !.unrep = [un1 EXCEPT ![r] = <<>>], !.seen = seen1,
+                IN [st |-> [st1 EXCEPT !.unrep = [un1 EXCEPT ![r] = <<>>], !.seen = seen1, !.by = by1,
                                        !.last[r] = [has |-> TRUE, m |-> merged, ts |-> t]],
                     emit |-> TRUE, pts |-> merged, start |-> start, idealStart |-> ideal,
                     fl |-> {"general"} \cup (IF Len(un1[r]) >= 2 THEN {"stash2"} ELSE {})
@@ -229,7 +253,8 @@ Broken(r, vw, emitted, pts, start, t) ==
   LET W == IF Temps[r] = "delta" THEN win[r][vw] ELSE rec[vw]
       P == IF emitted THEN pts ELSE Empty
       own == DOMAIN P \ {OVF}
-  IN IF Late(r)      \* a late reader: only its intervals, and not the start of its first delta one
+  IN IF r \in down THEN {}   \* a reader that was shut down: the statement is silent about what it is handed
+     ELSE IF Late(r) \* a late reader: only its intervals, and not the start of its first delta one
        THEN (IF DOMAIN P # {} /\ ~(IF Temps[r] = "cum" THEN start = 0
                                     ELSE lastEnd[r][vw] = 0 \/ (start \in colsOf[r] /\ start >= lastEnd[r][vw]))
                THEN {"IntervalsAbut"} ELSE {})
@@ -278,16 +303,34 @@ Collect(r, pri) ==
                                THEN {"old_reader_after_growth"} ELSE {})
                        \cup (IF Late(r) /\ \E vw \in RegNow : DOMAIN pts(vw) # {} THEN {"late_reader_points"} ELSE {})
                        \cup (IF nh = 0 THEN {"collect_before_create"} ELSE {})
+                       \* a reader that stays is handed what a reader that has left swapped out before / after leaving
+                       \cup (IF r \notin down /\ ~Late(r) /\ \E vw \in RegNow : LET st == store[RegStore(vw)] IN
+                                   Len(st.unrep[r]) >= 1 /\ st.by \in down /\ "parked_at_shutdown" \in flags
+                                   /\ "down_collect" \notin flags /\ DOMAIN pts(vw) # {}
+                               THEN {IF Temps[r] = "delta"
+                                       THEN (IF \E vw \in RegNow : DOMAIN store[RegStore(vw)].delta # {} THEN "surv_delta_parked_new" ELSE "surv_delta_parked")
+                                       ELSE (IF \E vw \in RegNow : DOMAIN store[RegStore(vw)].delta # {} THEN "surv_cum_parked_new" ELSE "surv_cum_parked")}
+                               ELSE {})
+                       \* ... and that reader had collected before: its delta interval must start there
+                       \cup (IF r \notin down /\ ~Late(r) /\ Temps[r] = "delta" /\ \E vw \in RegNow : LET st == store[RegStore(vw)] IN
+                                   Len(st.unrep[r]) >= 1 /\ st.by \in down /\ "parked_at_shutdown" \in flags
+                                   /\ DOMAIN pts(vw) # {} /\ st.last[r].has /\ st.last[r].ts > 0
+                               THEN {"surv_delta_parked_later"} ELSE {})
+                       \cup (IF r \in down /\ \E vw \in RegNow : DOMAIN store[RegStore(vw)].delta # {} THEN {"down_collect"} ELSE {})
+                       \cup (IF r \notin down /\ ~Late(r) /\ "down_collect" \in flags /\ \E vw \in RegNow : LET st == store[RegStore(vw)] IN
+                                   Len(st.unrep[r]) >= 1 /\ st.by \in down /\ DOMAIN pts(vw) # {}
+                               THEN {"surv_after_down_collect"} ELSE {})
                        \cup (IF \E vw \in RegNow : emitted(vw) /\ DOMAIN pts(vw) # {} /\ C[vw].idealStart > 0 THEN {"later_interval"} ELSE {}))
      /\ Log([e |-> "Collect", r |-> r, k |-> t,
              streams |-> LET vs == SelectSeq([i \in 1..NV |-> i], LAMBDA vw : emitted(vw)) IN
                          [i \in 1..Len(vs) |-> [vw |-> vs[i], t |-> Temps[r], start |-> C[vs[i]].start,
                                                 end |-> t, pts |-> PtsSeq(C[vs[i]].pts)]]])
-  /\ UNCHANGED <<nh, nr, nadd, rec>>
+  /\ UNCHANGED <<nh, nr, down, nadd, rec>>
 
 DoAdd == \E h \in 1..MaxHandles, s \in AttrSeqs, v \in Amounts : Add(h, s, v)
 DoCollect == \E r \in Readers, pri \in Pris : Collect(r, pri)
-Next == Create \/ AddReader \/ DoAdd \/ DoCollect
+DoShutdown == \E q \in Readers : ShutdownReader(q)
+Next == Create \/ AddReader \/ DoShutdown \/ DoAdd \/ DoCollect
 
 Spec == Init /\ [][Next]_vars
 
@@ -312,7 +355,7 @@ TableWithinLimit ==
 \* with Dev # {}: every way of breaking the property goes through a listed deviation
 OnlyListedDeviations == bad # {} => devUsed # {}
 
-TypeOK == nh \in 0..MaxHandles /\ nr \in InitReaders..Len(Temps) /\ nadd \in 0..MaxAdd /\ ncol \in 0..MaxCollect
+TypeOK == nh \in 0..MaxHandles /\ nr \in InitReaders..Len(Temps) /\ down \subseteq 1..nr /\ Cardinality(down) <= MaxShutdown /\ nadd \in 0..MaxAdd /\ ncol \in 0..MaxCollect
 
 (* ---- behaviour export ---------------------------------------------------- *)
 View == bvars
@@ -336,5 +379,12 @@ WitFiltered    == Wit("filtered")
 WitOldAfterGrowth == Wit("old_reader_after_growth")
 WitLateReader     == Wit("late_reader_points")
 WitBeforeCreate   == Wit("collect_before_create")
+WitSurvDeltaParked    == Wit("surv_delta_parked")       \* B collects, B is shut down, A (delta) collects
+WitSurvDeltaParkedNew == Wit("surv_delta_parked_new")   \* ..., more Adds, A (delta) collects
+WitSurvDeltaLater     == Wit("surv_delta_parked_later") \* A collects, ..., B collects, B is shut down, A collects
+WitSurvCumParked      == Wit("surv_cum_parked")
+WitSurvCumParkedNew   == Wit("surv_cum_parked_new")
+WitDownCollect        == Wit("down_collect")            \* a reader collects after its own shutdown (the SDK lets it)
+WitAfterDownCollect   == Wit("surv_after_down_collect")
 WitBad         == (bad # {} /\ LastIsCollect) => (PrintT(<<"BEH", ToJson(hist)>>) /\ FALSE)
 =============================================================================
